@@ -37,47 +37,98 @@ def run(rep, tier):
     weights(rep, F)
 
 
+DIMS = ["Empty", "ZeroDimensional", "OneDimensional", "TwoDimensional"]
+DADT = "geo::algorithm::dimensions::Dimensions"
+
+
+class _DimEval:
+    pass
+
+
+def _dim_eval(F, env):
+    """ArithEval that also orders Dimensions values (cmp / lt / le / gt / ge / eq on the enum by discriminant)"""
+    from ..evalterm import ArithEval, Enum
+
+    class E(ArithEval):
+        def call(self, t):
+            m = t[1].rsplit("::", 1)[-1]
+            if m in ("as_ref", "as_mut", "as_deref") and len(t[2]) == 1:
+                return self.ev(t[2][0])
+            if m in ("cmp", "partial_cmp", "lt", "le", "gt", "ge", "eq", "ne", "max", "min") and len(t[2]) == 2:
+                a, b = self.ev(t[2][0]), self.ev(t[2][1])
+                if isinstance(a, int) and isinstance(b, int) and not isinstance(a, bool) and m in ("cmp", "partial_cmp"):
+                    o = Enum("core::cmp::Ordering", "Less" if a < b else "Greater" if a > b else "Equal")
+                    return o if m == "cmp" else Enum("core::option::Option", "Some", [o])
+                if isinstance(a, Enum) and isinstance(b, Enum) and a.variant in DIMS and b.variant in DIMS:
+                    x, y = DIMS.index(a.variant), DIMS.index(b.variant)
+                    if m == "cmp":
+                        return Enum("core::cmp::Ordering", "Less" if x < y else "Greater" if x > y else "Equal")
+                    if m == "partial_cmp":
+                        return Enum("core::option::Option", "Some", [Enum("core::cmp::Ordering", "Less" if x < y else "Greater" if x > y else "Equal")])
+                    if m in ("max", "min"):
+                        return a if (x >= y) == (m == "max") else b
+                    return {"lt": x < y, "le": x <= y, "gt": x > y, "ge": x >= y, "eq": x == y, "ne": x != y}[m]
+            return ArithEval.call(self, t)
+
+        def discr_of(self, e):
+            if e.adt.endswith("Ordering"):
+                return {"Less": -1, "Equal": 0, "Greater": 1}[e.variant]
+            return ArithEval.discr_of(self, e)
+    return E(F, env)
+
+
 def dominance(rep, F):
-    rep.rule("R6.1", "add_assign / sub_assign: lower-dimensional accumulator is replaced, higher one keeps itself, equal dimensions combine accumulated AND weight with the same operator")
-    for name, op in (("add_assign", "add"), ("sub_assign", "sub")):
+    """R6.1 by evaluation: for every pair of dimensions (self, other) the final accumulator is computed from the path table on numeric witnesses."""
+    from ..evalterm import Enum, NoModel
+    rep.rule("R6.1", "add_assign / sub_assign (all 16 dimension pairs, numeric witnesses): lower-dimensional accumulator is replaced, higher one keeps itself, equal dimensions combine accumulated AND weight with the same operator")
+    for name, sign in (("add_assign", 1), ("sub_assign", -1)):
         try:
             fn = fn_of(F, WC, name)
-            ex = Symex(F, inline_crates=())
+            ex = Symex(F, inline_crates=("geo", "geo_types"))
             ps = [p for p in ex.run(fn) if p.kind == "ret"]
         except (KeyError, Unanalysable) as e:
             rep.bad("R6.1", name + ":anchor", str(e))
             continue
-        table = {}
-        for p in ps:
-            d = [(t, v) for t, v in p.pc if t[0] == "discr"]
-            if len(d) != 1:
-                continue
-            t, v = d[0]
-            s = bare(t)
-            if not re.search(r"cmp\(a1\.dimensions, a2\.dimensions\)", s):
-                table["?"] = s
-                continue
-            final = p.st.mem.get(("S", ("arg", 1)))
-            if final is None:
-                eff = "nothing"
-            else:
-                fs = bare(ex.canon(p.st, final))
-                if fs == "a2":
-                    eff = "replace"
-                else:
-                    acc = bare(ex.canon(p.st, ex.project(p.st, final, ("field", 1, "accumulated"))))
-                    w = bare(ex.canon(p.st, ex.project(p.st, final, ("field", 0, "weight"))))
-                    dm = bare(ex.canon(p.st, ex.project(p.st, final, ("field", 2, "dimensions"))))
-                    if acc == "%s(a1.accumulated, a2.accumulated)" % op and w == "%s(a1.weight, a2.weight)" % op and dm == "a1.dimensions":
-                        eff = "combine"
+        bad = None
+        for da in DIMS:
+            for db in DIMS:
+                A = {"weight": 3, "accumulated": {"x": 5, "y": 7}, "dimensions": Enum(DADT, da)}
+                B = {"weight": 11, "accumulated": {"x": 13, "y": 17}, "dimensions": Enum(DADT, db)}
+                ev = _dim_eval(F, {("arg", 1): A, ("arg", 2): B})
+                try:
+                    hit = ev.select_path(ps)
+                    if len(hit) != 1:
+                        bad = "dimensions (%s, %s) select %d rows" % (da, db, len(hit))
+                        break
+                    p = hit[0]
+                    final = p.st.mem.get(("S", ("arg", 1)))
+                    if final is None:
+                        got = (A["weight"], A["accumulated"]["x"], A["accumulated"]["y"], da)
                     else:
-                        eff = "acc=%s w=%s" % (acc[:50], w[:40])
-            table[v] = eff
-        want = {-1: "replace", 0: "combine", 1: "nothing"}
-        if table == want:
-            rep.ok("R6.1", name, sample={"Less": "replace", "Equal": "combine(%s)" % op, "Greater": "ignore"})
+                        def fld(i_, n_):
+                            return ev.ev(ex.canon(p.st, ex.project(p.st, final, ("field", i_, n_))))
+                        acc = fld(1, "accumulated")
+                        dm = fld(2, "dimensions")
+                        got = (fld(0, "weight"), acc["x"], acc["y"], dm.variant if isinstance(dm, Enum) else dm)
+                except (NoModel, TypeError, KeyError) as e:
+                    bad = "not evaluable for dimensions (%s, %s): %s" % (da, db, e)
+                    break
+                ia, ib = DIMS.index(da), DIMS.index(db)
+                if ia < ib:
+                    want = (11, 13, 17, db)
+                elif ia > ib:
+                    want = (3, 5, 7, da)
+                else:
+                    want = (3 + sign * 11, 5 + sign * 13, 7 + sign * 17, da)
+                if got != want:
+                    bad = "self of dimension %s %s other of dimension %s gives (weight, acc.x, acc.y, dim) = %s, expected %s" % (da, "+=" if sign > 0 else "-=", db, got, want)
+                    break
+            if bad:
+                break
+        if bad:
+            rep.bad("R6.1", name, bad, where=fn.loc())
         else:
-            rep.bad("R6.1", name, "dimension dominance table is %s (Less/Equal/Greater = -1/0/1), expected replace / combine with `%s` on both accumulators / nothing" % (table, op), where=fn.loc())
+            rep.ok("R6.1", name, sample={"Less": "replace", "Equal": "combine", "Greater": "ignore"})
 
 
 def accumulate(rep, F):
@@ -114,35 +165,50 @@ def accumulate(rep, F):
 
 
 def guards(rep, F):
-    rep.rule("R6.3", "add_line_string / add_multi_line_string skip only when the accumulator is strictly above OneDimensional, add_multi_point only when strictly above ZeroDimensional")
+    """R6.3 by evaluation: for each accumulator state (nothing yet, or a centroid of dimension d) the adder either returns at once (no call at all)
+    or goes on to traverse its input; it must return at once exactly when d is strictly above the dimension of what is being added."""
+    from ..evalterm import Enum, NoModel
+    rep.rule("R6.3", "add_line_string / add_multi_line_string skip exactly when the accumulator is strictly above OneDimensional, add_multi_point exactly when strictly above ZeroDimensional (evaluated for every accumulator state)")
     want = {"add_line_string": "OneDimensional", "add_multi_line_string": "OneDimensional", "add_multi_point": "ZeroDimensional"}
     for name, dim in want.items():
         try:
             fn = fn_of(F, CO, name)
-            ps = opaque(F, loop_bound=1).run(fn)
+            ex = Symex(F, inline_crates=("geo", "geo_types"), no_inline=[r"CentroidOperation::<T>::add_\w+$", r"::lines$", r"::iter$", r"HasDimensions>::\w+$", r"::coords$"], loop_bound=1)
+            ps = [p for p in ex.run(fn) if p.kind in ("ret", "cut")]
         except (KeyError, Unanalysable) as e:
             rep.bad("R6.3", name + ":anchor", str(e))
             continue
-        firsts = set()
-        for p in ps:
-            if p.pc:
-                firsts.add((bare(p.pc[0][0]), ))
-        guard = [f[0] for f in firsts]
-        exp = "gt(centroid_dimensions(a1), Dimensions::%s())" % dim
-        exp2 = "lt(Dimensions::%s(), centroid_dimensions(a1))" % dim
-        if guard and all(g in (exp, exp2) for g in guard):
-            # the true edge returns without adding
-            okk = True
+        bad = None
+        for acc in [None] + DIMS:
+            st0 = Enum("core::option::Option", "None") if acc is None else Enum("core::option::Option", "Some", [{"weight": 1, "accumulated": {"x": 0, "y": 0}, "dimensions": Enum(DADT, acc)}])
+            ev = _dim_eval(F, {("arg", 1): {"0": st0}})
+            outcomes = set()
             for p in ps:
-                if p.kind == "ret" and p.pc and p.pc[0][1] == 1:
-                    if [c for c in calls_of(p) if re.search(r"::add_\w+$", c[1])]:
-                        okk = False
-            if okk:
-                rep.ok("R6.3", name, sample=guard[0])
-            else:
-                rep.bad("R6.3", name + ":skip-branch", "the skip branch still adds", where=fn.loc())
+                okp = True
+                for t, v in p.pc:
+                    try:
+                        val = ev.ev(t)
+                    except (NoModel, TypeError, KeyError):
+                        continue          # a decision about the input geometry, not about the accumulator
+                    if isinstance(val, bool):
+                        val = 1 if val else 0
+                    if isinstance(val, Enum):
+                        val = ev.discr_of(val)
+                    if val != v:
+                        okp = False
+                        break
+                if okp:
+                    touches = [e for e in p.trace if e[0] == "call" and re.search(r"::(next|into_iter|iter|lines|coords|add_\w+)$", e[1])]
+                    outcomes.add("skip" if not touches and p.kind == "ret" else "goes-on")
+            exp = "skip" if acc is not None and DIMS.index(acc) > DIMS.index(dim) else "goes-on"
+            if outcomes != {exp}:
+                bad = "with an accumulator of dimension %s the adder %s, expected it to %s: contributions of the same dimension must not be dropped and higher-dimensional results must not be diluted" % (
+                    acc, " / ".join(sorted(outcomes)) or "has no matching path", "return at once" if exp == "skip" else "go on")
+                break
+        if bad:
+            rep.bad("R6.3", name, bad, where=fn.loc())
         else:
-            rep.bad("R6.3", name, "the early-exit guard is %s, expected the strict comparison `centroid_dimensions() > %s`: with `>=` contributions of the same dimension would be dropped" % (guard[:2], dim), where=fn.loc())
+            rep.ok("R6.3", name)
 
 
 def fallbacks(rep, F):
@@ -213,50 +279,61 @@ def fallbacks(rep, F):
 
 
 def ring_step(rep, F):
-    rep.rule("R6.5", "add_ring: moment step accum + (end+start)*det on segments shifted by ring[0]; centroid = acc/(6*area) + shift; weight = |area|; dimension Two")
+    """R6.5 on a closed ring of 4 coordinates (exact unrolling, helpers inlined): with A := the ring's signed area, the centroid handed to
+    add_centroid must be, as a rational function of the coordinates, the centre of mass Σ (p_i + p_{i+1}) det(p_i, p_{i+1}) / (6 A) — any
+    conditioning shift has to cancel — with weight |A| and dimension Two."""
+    from ..poly import from_term, R, P, sym, show_poly
+    rep.rule("R6.5", "add_ring (closed ring of 4 coordinates, exact unrolling): centroid == Σ (p_i + p_{i+1})·det(p_i, p_{i+1}) / (6·area) as a rational identity; weight = |area|; dimension Two")
     try:
         fn = fn_of(F, CO, "add_ring")
-        ex = opaque(F)
-        ps = [p for p in ex.run(fn) if p.kind == "ret"]
+        N = 4
+        LS = "geo_types::geometry::line_string::LineString"
+        elems = tuple(("index", ("field", ("deref", ("arg", 2)), "0"), ("const", k)) for k in range(N))
+        ring = ("&", ("adt", LS, "LineString", (("call", "vec!", (("array", elems),)),)))
+        ex = Symex(F, inline_crates=("geo", "geo_types"), no_inline=[r"area::get_linestring_area$", r"CentroidOperation::<T>::add_\w+$", r"HasDimensions>::\w+$", r"is_closed$"],
+                   loop_bound=N + 3, concrete_iters=True)
+        ps = [p for p in ex.run(fn, args=[("arg", 1), ring]) if p.kind == "ret"]
         main = [p for p in ps if any(c[1].endswith("::add_centroid") for c in calls_of(p))]
         if not main:
             rep.bad("R6.5", "no-area-path", "no path adds an area centroid", where=fn.loc())
             return
-        c = [c for c in calls_of(main[0]) if c[1].endswith("::add_centroid")][0]
-        dims, cen, w = bare(c[2][1]), bare(c[2][2]), bare(c[2][3])
-        okk = dims == "Dimensions::TwoDimensional()" and w == "abs(get_linestring_area(a2))"
-        m = re.match(r"^add\(div\(fold\(lines\(a2\), zero\(\), closure\[(.*)\]\), mul\((?:unwrap\(from\(6\)\)|\(from\(6\) as Some\)\.0), get_linestring_area\(a2\)\)\), (.*)\)$", cen)
-        if not m or m.group(2) != m.group(1) or not re.match(r"^a2\.0\[0\]$|^index\(a2\.0, 0\)$|^a2\.0\[\d\]$", m.group(2)):
-            okk = False
-        cls = find_closures(c[2][2], [])
-        body = None
-        if cls:
-            from ..poly import from_term, R, sym
-            lam = Lam(Symex(F, inline_crates=("geo", "geo_types")), cls[0], 2)
-            if lam.paths and len(lam.paths) == 1 and lam.paths[0].ret[0] == "adt":
-                r_ = lam.paths[0].ret
-                body = bare(r_)
-                try:
-                    leaf = lambda x: bare(x)
-                    gx, gy = from_term(r_[3][0], leaf), from_term(r_[3][1], leaf)
-                    S = lambda n: R(sym(n))
-                    sx, sy = S("bound(1).start.x") - S("a2.0[0].x"), S("bound(1).start.y") - S("a2.0[0].y")
-                    ex_, ey = S("bound(1).end.x") - S("a2.0[0].x"), S("bound(1).end.y") - S("a2.0[0].y")
-                    det = sx * ey - sy * ex_
-                    wx = S("bound(0).x") + (ex_ + sx) * det
-                    wy = S("bound(0).y") + (ey + sy) * det
-                    if not (gx.equals(wx) and gy.equals(wy)):
-                        okk = False
-                except ValueError:
-                    okk = False
-            else:
-                okk = False
-        else:
-            okk = False
-        if okk:
-            rep.ok("R6.5", "ring-moment", sample={"centroid": cen[:120], "step": body[:120]})
-        else:
-            rep.bad("R6.5", "ring-moment", "ring centroid is %s with weight %s, dimension %s, step %s" % (cen[:140], w, dims, (body or "")[:140]), where=fn.loc())
+        for p in main:
+            c = [c for c in calls_of(p) if c[1].endswith("::add_centroid")][0]
+            dims, w = bare(c[2][1]), bare(c[2][3])
+            cen = c[2][2]
+
+            def leaf(t):
+                s_ = bare(t)
+                if "get_linestring_area(" in s_:
+                    return "AREA"
+                return s_.replace("a2.0[%d]" % (N - 1), "a2.0[0]")
+            X = lambda k: R(sym("a2.0[%d].x" % (k % (N - 1))))
+            Y = lambda k: R(sym("a2.0[%d].y" % (k % (N - 1))))
+            area2 = R(P(0))
+            mx = R(P(0))
+            my = R(P(0))
+            for k in range(N - 1):
+                det = X(k) * Y(k + 1) - X(k + 1) * Y(k)
+                area2 = area2 + det
+                mx = mx + (X(k) + X(k + 1)) * det
+                my = my + (Y(k) + Y(k + 1)) * det
+            A = area2 / R(P(2))
+            try:
+                if cen[0] == "adt":
+                    gx, gy = from_term(cen[3][0], leaf), from_term(cen[3][1], leaf)
+                else:
+                    gx, gy = from_term(("field", cen, "x"), leaf), from_term(("field", cen, "y"), leaf)
+            except ValueError as e:
+                rep.bad("R6.5", "ring-moment", "the ring centroid is not a rational function of the coordinates (%s)" % e, where=fn.loc())
+                return
+            from .c13 import rsubst_r
+            gx, gy = rsubst_r(gx, {"AREA": A}), rsubst_r(gy, {"AREA": A})
+            wx, wy = mx / (R(P(6)) * A), my / (R(P(6)) * A)
+            if not (gx.equals(wx) and gy.equals(wy)) or dims != "Dimensions::TwoDimensional()" or w != "abs(get_linestring_area(a2))".replace("a2", bare(ring)) and not re.match(r"^abs\(get_linestring_area\(.*\)\)$", w):
+                rep.bad("R6.5", "ring-moment", "the centroid handed over for a ring is not Σ (p_i + p_{i+1})·det / (6·area) (difference in x: %s), or weight %s / dimension %s are not |area| / Two" % (
+                    show_poly((gx - wx).n)[:120], w[:60], dims), where=fn.loc())
+                return
+        rep.ok("R6.5", "ring-moment[rational identity, 4 coordinates]")
     except (KeyError, Unanalysable, IndexError) as e:
         rep.bad("R6.5", "anchor", str(e))
 
